@@ -14,7 +14,7 @@ import (
 
 func c15Vals() int {
 	if ndTier() > 0 {
-		return 3
+		return 5
 	}
 	return 2
 }
@@ -68,7 +68,7 @@ func VerifC15_checkpoint() {
 
 func c15ValueLen() int {
 	if ndTier() > 0 {
-		return ndPick("vlen", 5) * 16 // 0,16,32,48,64
+		return []int{0, 1, 16, 31, 32, 33, 48, 64, 65, 96}[ndPick("vlen", 10)]
 	}
 	return []int{0, 1, 32, 33}[ndPick("vlen", 4)]
 }
